@@ -48,6 +48,17 @@ Proof.
   intros Hb. unfold zslice. replace (Z.to_nat (b - a)) with 0%nat by lia. reflexivity.
 Qed.
 
+Lemma zslice_nil_inv l a b : 0 <= a -> zslice l a b = [] -> b <= a \/ zlen l <= a.
+Proof.
+  intros Ha E. pose proof (zlen_zslice l a b Ha) as Hz. rewrite E, zlen_nil in Hz. lia.
+Qed.
+
+Lemma zslice_cons_inv l a b x c : 0 <= a -> zslice l a b = x :: c -> a < b /\ a < zlen l.
+Proof.
+  intros Ha E. pose proof (zlen_zslice l a b Ha) as Hz. rewrite E, zlen_cons in Hz.
+  pose proof (zlen_nonneg c). lia.
+Qed.
+
 Lemma zslice_0 l p : zslice l 0 p = firstn (Z.to_nat p) l.
 Proof.
   unfold zslice. rewrite Z.sub_0_r. reflexivity.
@@ -77,18 +88,27 @@ Proof.
   - rewrite firstn_firstn. f_equal. lia.
 Qed.
 
+Lemma skipn_skipn' l (x y : nat) : skipn x (skipn y l) = skipn (x + y) l.
+Proof.
+  revert l. induction y as [|y IH]; intros l.
+  - rewrite Nat.add_0_r. reflexivity.
+  - rewrite Nat.add_succ_r. destruct l as [|e l].
+    + rewrite !skipn_nil. reflexivity.
+    + cbn [skipn]. apply IH.
+Qed.
+
 Lemma zslice_app_adj l a b c :
   0 <= a <= b -> b <= c -> zslice l a b ++ zslice l b c = zslice l a c.
 Proof.
   intros Hab Hbc. unfold zslice.
   replace (Z.to_nat b) with (Z.to_nat (b - a) + Z.to_nat a)%nat by lia.
-  rewrite <- skipn_skipn, firstn_app_skipn. f_equal. lia.
+  rewrite <- skipn_skipn', firstn_app_skipn. f_equal. lia.
 Qed.
 
 Lemma skipn_zslice l a b h :
   0 <= a -> 0 <= h -> skipn (Z.to_nat h) (zslice l a b) = zslice l (a + h) b.
 Proof.
-  intros Ha Hh. unfold zslice. rewrite skipn_firstn_comm, skipn_skipn.
+  intros Ha Hh. unfold zslice. rewrite skipn_firstn_comm, skipn_skipn'.
   f_equal; [lia | f_equal; lia].
 Qed.
 
@@ -138,3 +158,984 @@ Proof.
 Qed.
 
 End ListFacts.
+
+(* ------------------------------------------------------------------ *)
+(** * Fields that no read ever changes *)
+
+Section Static.
+Context {A : Type}.
+Implicit Types r : rd A.
+
+Definition same_static r r' : Prop :=
+  src r' = src r /\ recording r' = recording r /\ rdata r' = rdata r /\
+  limit r' = limit r /\ bsize r' = bsize r /\ hop r' = hop r.
+
+Lemma same_static_refl r : same_static r r.
+Proof. unfold same_static. repeat split. Qed.
+
+Lemma same_static_trans r1 r2 r3 : same_static r1 r2 -> same_static r2 r3 -> same_static r1 r3.
+Proof.
+  unfold same_static. intros (Ha & Hb & Hc & Hd & He & Hf) (Ha' & Hb' & Hc' & Hd' & He' & Hf').
+  repeat split; congruence.
+Qed.
+
+Lemma base_read_static r n : same_static r (fst (base_read r n)).
+Proof.
+  unfold base_read. destruct (zslice (src r) (pos r) (pos r + n)).
+  - apply same_static_refl.
+  - unfold same_static. cbn [fst src recording rdata limit bsize hop]. repeat split.
+Qed.
+
+Lemma lim_read_static r n : same_static r (fst (lim_read r n)).
+Proof.
+  unfold lim_read. destruct (limit r) as [m|].
+  - destruct (Z.min (m - nread r) n <=? 0).
+    + apply same_static_refl.
+    + pose proof (base_read_static r (Z.min (m - nread r) n)) as Hb.
+      destruct (base_read r (Z.min (m - nread r) n)) as [r1 [blk|]]; cbn [fst] in *.
+      * unfold same_static in *. cbn [src recording rdata limit bsize hop]. exact Hb.
+      * exact Hb.
+  - apply base_read_static.
+Qed.
+
+Lemma set_gen_static r g : same_static r (set_gen r g).
+Proof. unfold same_static, set_gen. cbn [src recording rdata limit bsize hop]. repeat split. Qed.
+
+Lemma read_static r : same_static r (fst (read r)).
+Proof.
+  unfold read. destruct (hop r) as [h|].
+  - destruct (gen r) as [|c|].
+    + pose proof (lim_read_static r (bsize r)) as Hl.
+      destruct (lim_read r (bsize r)) as [r1 [blk|]]; cbn [fst] in *;
+        (eapply same_static_trans; [exact Hl | apply set_gen_static]).
+    + pose proof (lim_read_static r h) as Hl.
+      destruct (lim_read r h) as [r1 [blk|]]; cbn [fst] in *.
+      * eapply same_static_trans; [exact Hl | apply set_gen_static].
+      * exact Hl.
+    + apply same_static_refl.
+  - apply lim_read_static.
+Qed.
+
+Lemma reads_static r k : same_static r (fst (reads r k)).
+Proof.
+  revert r. induction k as [|k IH]; intros r.
+  - apply same_static_refl.
+  - cbn [reads]. pose proof (read_static r) as Hr.
+    destruct (read r) as [r1 b]. cbn [fst] in Hr.
+    pose proof (IH r1) as Hk. destruct (reads r1 k) as [r2 bs]. cbn [fst] in *.
+    eapply same_static_trans; eassumption.
+Qed.
+
+End Static.
+
+(* ------------------------------------------------------------------ *)
+(** * The limiter + recorder + source, seen from above *)
+
+Section LimRead.
+Context {A : Type}.
+Implicit Types r : rd A.
+
+(** The visible data of a reader state. *)
+Definition rvis r : list A := vis (src r) (limit r).
+
+(** Effect of successfully reading chunk [c]. *)
+Definition adv r (c : list A) : rd A :=
+  mkRd (src r) (pos r + zlen c) (recording r)
+       (if recording r && negb (match rdata r with Some _ => true | None => false end)
+        then cache r ++ c else cache r)
+       (rdata r) (limit r)
+       (match limit r with Some _ => nread r + zlen c | None => nread r end)
+       (bsize r) (hop r) (gen r).
+
+(** The limiter's counter follows the source cursor. *)
+Definition lim_ok r : Prop :=
+  0 <= pos r /\ (forall m, limit r = Some m -> nread r = pos r).
+
+(** While recording and not yet rewound, the cache is what was consumed. *)
+Definition rec_ok r : Prop :=
+  recording r = true -> rdata r = None -> cache r = zslice (src r) 0 (pos r).
+
+Lemma lim_read_spec r n :
+  lim_ok r ->
+  lim_read r n =
+  match zslice (rvis r) (pos r) (pos r + n) with
+  | [] => (r, None)
+  | c => (adv r c, Some c)
+  end.
+Proof.
+  intros [Hpos Hn]. unfold lim_read, rvis, adv.
+  destruct (limit r) as [m|] eqn:El.
+  - rewrite (Hn m eq_refl). unfold vis. rewrite zslice_firstn by exact Hpos.
+    destruct (Z.min (m - pos r) n <=? 0) eqn:Es.
+    + rewrite zslice_nil_le by lia. reflexivity.
+    + unfold base_read.
+      replace (pos r + Z.min (m - pos r) n) with (Z.min (pos r + n) m) by lia.
+      destruct (zslice (src r) (pos r) (Z.min (pos r + n) m)) as [|x c]; [reflexivity|].
+      cbn [src pos recording cache rdata limit nread bsize hop gen].
+      rewrite El, (Hn m eq_refl). reflexivity.
+  - unfold vis, base_read.
+    destruct (zslice (src r) (pos r) (pos r + n)) as [|x c]; [reflexivity|].
+    rewrite El. reflexivity.
+Qed.
+
+Lemma adv_static r c : same_static r (adv r c).
+Proof. unfold same_static, adv. cbn [src recording rdata limit bsize hop]. repeat split. Qed.
+
+Lemma adv_lim_ok r c : lim_ok r -> lim_ok (adv r c).
+Proof.
+  intros [Hpos Hn]. unfold lim_ok, adv. cbn [pos limit nread].
+  pose proof (zlen_nonneg c). split; [lia|].
+  intros m Hm. rewrite Hm. rewrite (Hn m Hm). reflexivity.
+Qed.
+
+Lemma adv_rec_ok r b :
+  lim_ok r -> rec_ok r -> rec_ok (adv r (zslice (rvis r) (pos r) b)).
+Proof.
+  intros [Hpos _] Hrec. unfold rec_ok, adv.
+  cbn [recording rdata cache src pos]. intros Hr Hd.
+  rewrite Hr, Hd. cbn [andb negb]. rewrite (Hrec Hr Hd).
+  destruct (zslice_vis_src (src r) (limit r) (pos r) b Hpos) as [q Hq].
+  unfold rvis. rewrite Hq.
+  rewrite (zslice_self_len (src r) (pos r) q) at 1 by exact Hpos.
+  apply zslice_app_adj; [lia|].
+  pose proof (zlen_nonneg (zslice (src r) (pos r) q)). lia.
+Qed.
+
+Lemma set_gen_lim_ok r g : lim_ok r -> lim_ok (set_gen r g).
+Proof. unfold lim_ok, set_gen. cbn [pos limit nread]. tauto. Qed.
+
+Lemma set_gen_rec_ok r g : rec_ok r -> rec_ok (set_gen r g).
+Proof. unfold rec_ok, set_gen. cbn [recording rdata cache src pos]. tauto. Qed.
+
+End LimRead.
+
+(* ------------------------------------------------------------------ *)
+(** * Generic preservation, and the cursor never passes the visible data *)
+
+Section Bound.
+Context {A : Type}.
+Implicit Types r : rd A.
+
+Lemma adv_rec_ok' r b c :
+  lim_ok r -> rec_ok r -> c = zslice (rvis r) (pos r) b -> rec_ok (adv r c).
+Proof. intros Hl Hr ->. apply adv_rec_ok; assumption. Qed.
+
+Lemma read_preserves (P : rd A -> Prop) :
+  (forall r n, P r -> P (fst (lim_read r n))) ->
+  (forall r g, P r -> P (set_gen r g)) ->
+  forall r, P r -> P (fst (read r)).
+Proof.
+  intros Hlim Hset r Hr. unfold read. destruct (hop r) as [h|].
+  - destruct (gen r) as [|c|].
+    + pose proof (Hlim r (bsize r) Hr) as Hl.
+      destruct (lim_read r (bsize r)) as [r1 [blk|]]; cbn [fst] in *; apply Hset; exact Hl.
+    + pose proof (Hlim r h Hr) as Hl.
+      destruct (lim_read r h) as [r1 [blk|]]; cbn [fst] in *; [apply Hset|]; exact Hl.
+    + exact Hr.
+  - apply Hlim. exact Hr.
+Qed.
+
+Lemma reads_preserves (P : rd A -> Prop) :
+  (forall r, P r -> P (fst (read r))) ->
+  forall k r, P r -> P (fst (reads r k)).
+Proof.
+  intros Hread k. induction k as [|k IH]; intros r Hr.
+  - exact Hr.
+  - cbn [reads]. pose proof (Hread r Hr) as H1.
+    destruct (read r) as [r1 b]. cbn [fst] in H1.
+    pose proof (IH r1 H1) as H2. destruct (reads r1 k) as [r2 bs]. exact H2.
+Qed.
+
+Definition bound_ok r : Prop := lim_ok r /\ pos r <= zlen (rvis r).
+
+Lemma lim_read_bound r n : bound_ok r -> bound_ok (fst (lim_read r n)).
+Proof.
+  intros [Hl Hb]. rewrite lim_read_spec by exact Hl.
+  destruct (zslice (rvis r) (pos r) (pos r + n)) as [|x c] eqn:E; cbn [fst].
+  - split; assumption.
+  - rewrite <- E. split; [apply adv_lim_ok; exact Hl|].
+    unfold rvis, adv. cbn [pos src limit]. fold (rvis r).
+    destruct Hl as [Hpos _]. rewrite zlen_zslice by exact Hpos. lia.
+Qed.
+
+Lemma set_gen_bound r g : bound_ok r -> bound_ok (set_gen r g).
+Proof.
+  intros [Hl Hb]. split; [apply set_gen_lim_ok; exact Hl|].
+  unfold rvis, set_gen. cbn [pos src limit]. exact Hb.
+Qed.
+
+Lemma reads_bound r k : bound_ok r -> bound_ok (fst (reads r k)).
+Proof.
+  apply reads_preserves. apply read_preserves.
+  - apply lim_read_bound.
+  - apply set_gen_bound.
+Qed.
+
+Lemma mk_reader_lim_ok (data : list A) W H rec mx : lim_ok (mk_reader data W H rec mx).
+Proof. unfold lim_ok, mk_reader. cbn [pos limit nread]. split; [lia | reflexivity]. Qed.
+
+Lemma mk_reader_bound (data : list A) W H rec mx : bound_ok (mk_reader data W H rec mx).
+Proof.
+  split; [apply mk_reader_lim_ok|]. unfold mk_reader. cbn [pos]. apply zlen_nonneg.
+Qed.
+
+End Bound.
+
+(* ------------------------------------------------------------------ *)
+(** * Fixed-size reader *)
+
+Section Fixed.
+Context {A : Type}.
+Variables (data : list A) (mx : option Z) (W : Z).
+Hypothesis HW : 1 <= W.
+Local Notation v := (vis data mx).
+
+(** State after [i] reads. *)
+Definition InvF (i : nat) (r : rd A) : Prop :=
+  src r = data /\ limit r = mx /\ bsize r = W /\ hop r = None /\
+  lim_ok r /\ rec_ok r /\ pos r = Z.min (zlen v) (Z.of_nat i * W).
+
+Lemma fixed_step i r :
+  InvF i r ->
+  InvF (S i) (fst (read r)) /\ snd (read r) = fixed_block v W (Z.of_nat i).
+Proof.
+  intros (Hs & Hl & Hb & Hh & Hok & Hrec & Hp).
+  assert (Hv : rvis r = v) by (unfold rvis; rewrite Hs, Hl; reflexivity).
+  unfold read. rewrite Hh, Hb. rewrite lim_read_spec by exact Hok.
+  rewrite Hv. unfold fixed_block.
+  pose proof (zlen_nonneg v) as Hn.
+  assert (Hi : 0 <= Z.of_nat i * W) by nia.
+  destruct (Z.lt_ge_cases (Z.of_nat i * W) (zlen v)) as [Hlt|Hge].
+  - (* the source is not exhausted: a non-empty block *)
+    assert (Hpi : pos r = Z.of_nat i * W) by lia. rewrite Hpi.
+    destruct (zslice v (Z.of_nat i * W) (Z.of_nat i * W + W)) as [|x c] eqn:E; cbn [fst snd].
+    + exfalso. apply zslice_nil_inv in E; [lia | exact Hi].
+    + split; [|reflexivity]. rewrite <- E.
+      pose proof (adv_static r (zslice v (Z.of_nat i * W) (Z.of_nat i * W + W)))
+        as (Ha1 & _ & _ & Ha4 & Ha5 & Ha6).
+      unfold InvF. rewrite Ha1, Ha4, Ha5, Ha6.
+      split; [exact Hs|]. split; [exact Hl|]. split; [exact Hb|]. split; [exact Hh|].
+      split; [apply adv_lim_ok; exact Hok|].
+      split; [apply (adv_rec_ok' r (Z.of_nat i * W + W)); [exact Hok | exact Hrec |];
+              rewrite Hv, Hpi; reflexivity|].
+      unfold adv. cbn [pos]. rewrite zlen_zslice by exact Hi. lia.
+  - (* exhausted: None, state unchanged *)
+    assert (Hpn : pos r = zlen v) by lia. rewrite Hpn.
+    rewrite (zslice_nil_ge v (zlen v)) by lia.
+    rewrite (zslice_nil_ge v (Z.of_nat i * W)) by lia.
+    cbn [fst snd]. split; [|reflexivity].
+    unfold InvF. repeat (split; [assumption|]). lia.
+Qed.
+
+Lemma fixed_reads k : forall i r,
+  InvF i r ->
+  InvF (i + k) (fst (reads r k)) /\
+  snd (reads r k) = map (fun j => fixed_block v W (Z.of_nat j)) (seq i k).
+Proof.
+  induction k as [|k IH]; intros i r Hinv.
+  - rewrite Nat.add_0_r. cbn [reads fst snd seq map]. split; [exact Hinv | reflexivity].
+  - cbn [reads seq map]. destruct (fixed_step i r Hinv) as [H1 H2].
+    destruct (read r) as [r1 b]. cbn [fst snd] in H1, H2.
+    destruct (IH (S i) r1 H1) as [H3 H4].
+    destruct (reads r1 k) as [r2 bs]. cbn [fst snd] in *.
+    rewrite Nat.add_succ_r. split; [exact H3|]. rewrite H2, H4. reflexivity.
+Qed.
+
+(** Any state that looks like a freshly opened (or freshly rewound) reader. *)
+Lemma InvF_init r :
+  src r = data -> limit r = mx -> bsize r = W -> hop r = None ->
+  pos r = 0 -> nread r = 0 -> (rdata r = None -> cache r = []) -> InvF 0 r.
+Proof.
+  intros Hs Hl Hb Hh Hp Hn Hc. unfold InvF.
+  repeat (split; [assumption|]).
+  split; [unfold lim_ok; rewrite Hp; split; [lia | intros; exact Hn]|].
+  split.
+  - unfold rec_ok. intros _ Hd. rewrite Hp, (Hc Hd). reflexivity.
+  - rewrite Hp. pose proof (zlen_nonneg v). lia.
+Qed.
+
+End Fixed.
+
+(* ------------------------------------------------------------------ *)
+(** * Overlapping reader *)
+
+Section Overlap.
+Context {A : Type}.
+Variables (data : list A) (mx : option Z) (W H : Z).
+Hypothesis HH : 1 <= H.
+Hypothesis HHW : H < W.
+Local Notation v := (vis data mx).
+
+(** Block [i], with the existence condition in elementary form. *)
+Definition ob (i : nat) : option (list A) :=
+  match i with
+  | O => match zslice v 0 W with [] => None | b => Some b end
+  | S i' => if W + Z.of_nat i' * H <? zlen v
+            then Some (zslice v (Z.of_nat (S i') * H) (Z.of_nat (S i') * H + W))
+            else None
+  end.
+
+Definition StO (r : rd A) : Prop :=
+  src r = data /\ limit r = mx /\ bsize r = W /\ hop r = Some H.
+
+Lemma StO_same r r' : same_static r r' -> StO r -> StO r'.
+Proof.
+  unfold same_static, StO. intros (Ha & _ & _ & Hd & He & Hf) (H1 & H2 & H3 & H4).
+  repeat split; congruence.
+Qed.
+
+(** State after [i] reads. *)
+Definition InvO (i : nat) (r : rd A) : Prop :=
+  StO r /\ lim_ok r /\ rec_ok r /\
+  match i with
+  | O => gen r = GInit /\ pos r = 0
+  | S i' =>
+      pos r = Z.min (zlen v) (W + Z.of_nat i' * H) /\
+      if zlen v =? 0 then gen r = GDone
+      else exists c, gen r = GRun c /\
+                     (pos r < zlen v -> c = zslice v (Z.of_nat (S i') * H) (pos r))
+  end.
+
+Lemma overlap_step i r :
+  InvO i r -> InvO (S i) (fst (read r)) /\ snd (read r) = ob i.
+Proof.
+  intros (Hst & Hok & Hrec & Hg).
+  pose proof Hst as (Hs & Hl & Hb & Hh).
+  assert (Hv : rvis r = v) by (unfold rvis; rewrite Hs, Hl; reflexivity).
+  pose proof (zlen_nonneg v) as Hn.
+  unfold read. rewrite Hh.
+  destruct i as [|i'].
+  - (* first read: a whole block *)
+    destruct Hg as [Hg Hp]. rewrite Hg, Hb. rewrite lim_read_spec by exact Hok.
+    rewrite Hv, Hp. cbn [ob]. rewrite Z.add_0_l.
+    destruct (zslice v 0 W) as [|x c] eqn:E; cbn [fst snd].
+    + apply zslice_nil_inv in E; [|lia]. assert (Hz : zlen v = 0) by lia.
+      split; [|reflexivity]. unfold InvO.
+      split; [eapply StO_same; [apply set_gen_static | exact Hst]|].
+      split; [apply set_gen_lim_ok; exact Hok|].
+      split; [apply set_gen_rec_ok; exact Hrec|].
+      unfold set_gen. cbn [pos gen].
+      destruct (zlen v =? 0) eqn:Ez; [|lia]. split; [lia | reflexivity].
+    + apply zslice_cons_inv in E as HE; [|lia]. rewrite <- E.
+      split; [|reflexivity]. unfold InvO.
+      split; [eapply StO_same; [|exact Hst];
+              eapply same_static_trans; [apply adv_static | apply set_gen_static]|].
+      split; [apply set_gen_lim_ok, adv_lim_ok; exact Hok|].
+      split; [apply set_gen_rec_ok; apply (adv_rec_ok' r W); [exact Hok | exact Hrec |];
+              rewrite Hv, Hp; reflexivity|].
+      unfold set_gen, adv. cbn [pos gen]. rewrite Hp.
+      rewrite zlen_zslice by lia.
+      split; [lia|].
+      destruct (zlen v =? 0) eqn:Ez; [lia|].
+      eexists. split; [reflexivity|]. intros Hlt.
+      rewrite skipn_zslice by lia. f_equal; lia.
+  - (* later reads: hop samples appended to the kept tail *)
+    destruct Hg as [Hp Hg].
+    assert (Hi : 0 <= Z.of_nat i' * H) by nia.
+    destruct (zlen v =? 0) eqn:Ez.
+    + rewrite Hg. cbn [fst snd]. split.
+      * unfold InvO. repeat (split; [assumption|]). rewrite Ez. split; [lia | exact Hg].
+      * cbn [ob]. destruct (W + Z.of_nat i' * H <? zlen v) eqn:Ec; [lia | reflexivity].
+    + destruct Hg as (c & Hg & Hc). rewrite Hg. rewrite lim_read_spec by exact Hok.
+      rewrite Hv. destruct Hok as [Hpos Hnr].
+      destruct (zslice v (pos r) (pos r + H)) as [|x cn] eqn:E; cbn [fst snd].
+      * (* exhausted *)
+        apply zslice_nil_inv in E; [|exact Hpos].
+        split.
+        -- unfold InvO. split; [exact Hst|]. split; [split; assumption|].
+           split; [exact Hrec|]. rewrite Ez. split; [lia|].
+           exists c. split; [exact Hg|]. intros Hlt. lia.
+        -- cbn [ob]. destruct (W + Z.of_nat i' * H <? zlen v) eqn:Ec; [lia | reflexivity].
+      * apply zslice_cons_inv in E as HE; [|exact Hpos]. rewrite <- E.
+        assert (Hpi : pos r = W + Z.of_nat i' * H) by lia.
+        assert (Happ : c ++ zslice v (pos r) (pos r + H)
+                       = zslice v (Z.of_nat (S i') * H) (Z.of_nat (S i') * H + W)).
+        { rewrite (Hc ltac:(lia)). rewrite zslice_app_adj by lia. f_equal. lia. }
+        rewrite Happ.
+        split.
+        -- unfold InvO.
+           split; [eapply StO_same; [|exact Hst];
+                   eapply same_static_trans; [apply adv_static | apply set_gen_static]|].
+           split; [apply set_gen_lim_ok, adv_lim_ok; split; assumption|].
+           split; [apply set_gen_rec_ok; apply (adv_rec_ok' r (pos r + H));
+                   [split; assumption | exact Hrec | rewrite Hv; reflexivity]|].
+           unfold set_gen, adv. cbn [pos gen].
+           rewrite zlen_zslice by exact Hpos.
+           split; [lia|]. rewrite Ez.
+           eexists. split; [reflexivity|]. intros Hlt.
+           rewrite skipn_zslice by lia. f_equal; lia.
+        -- cbn [ob]. destruct (W + Z.of_nat i' * H <? zlen v) eqn:Ec; [reflexivity | lia].
+Qed.
+
+Lemma overlap_reads k : forall i r,
+  InvO i r ->
+  InvO (i + k) (fst (reads r k)) /\ snd (reads r k) = map ob (seq i k).
+Proof.
+  induction k as [|k IH]; intros i r Hinv.
+  - rewrite Nat.add_0_r. cbn [reads fst snd seq map]. split; [exact Hinv | reflexivity].
+  - cbn [reads seq map]. destruct (overlap_step i r Hinv) as [H1 H2].
+    destruct (read r) as [r1 b]. cbn [fst snd] in H1, H2.
+    destruct (IH (S i) r1 H1) as [H3 H4].
+    destruct (reads r1 k) as [r2 bs]. cbn [fst snd] in *.
+    rewrite Nat.add_succ_r. split; [exact H3|]. rewrite H2, H4. reflexivity.
+Qed.
+
+Lemma InvO_init r :
+  src r = data -> limit r = mx -> bsize r = W -> hop r = Some H ->
+  pos r = 0 -> nread r = 0 -> gen r = GInit -> (rdata r = None -> cache r = []) -> InvO 0 r.
+Proof.
+  intros Hs Hl Hb Hh Hp Hn Hg Hc. unfold InvO, StO.
+  split; [repeat split; assumption|].
+  split; [unfold lim_ok; rewrite Hp; split; [lia | intros; exact Hn]|].
+  split.
+  - unfold rec_ok. intros _ Hd. rewrite Hp, (Hc Hd). reflexivity.
+  - split; assumption.
+Qed.
+
+End Overlap.
+
+(* ------------------------------------------------------------------ *)
+(** * The block count [nb_overlap] in elementary form *)
+
+Lemma nb_overlap_lt n W H i :
+  1 <= H -> 0 <= n -> 0 <= i ->
+  (i <? nb_overlap n W H) = (0 <? n) && ((i =? 0) || (W + (i - 1) * H <? n)).
+Proof.
+  intros HH Hn Hi. unfold nb_overlap.
+  destruct (n =? 0) eqn:En.
+  - destruct (i <? 0) eqn:E1; [lia|]. destruct (0 <? n) eqn:E2; [lia | reflexivity].
+  - destruct (0 <? n) eqn:E2; [|lia]. cbn [andb].
+    set (x := Z.max 0 (n - W) + H - 1).
+    assert (Hx : 0 <= x) by (unfold x; lia).
+    pose proof (Z.div_mod x H ltac:(lia)) as Hdm.
+    pose proof (Z.mod_pos_bound x H ltac:(lia)) as Hmb.
+    set (q := x / H) in *. set (m := x mod H) in *.
+    destruct (i =? 0) eqn:E0.
+    + cbn [orb]. assert (0 <= q) by nia. destruct (i <? 1 + q) eqn:E1; [reflexivity | lia].
+    + cbn [orb].
+      destruct (i <? 1 + q) eqn:E1; destruct (W + (i - 1) * H <? n) eqn:E3;
+        try reflexivity; exfalso.
+      * (* i <= q but W + (i-1)H >= n *)
+        assert (H * i <= H * q) by nia. unfold x in Hdm. nia.
+      * (* i > q but W + (i-1)H < n *)
+        assert (H * (q + 1) <= H * i) by nia. unfold x in Hdm. nia.
+Qed.
+
+Section OverlapClosed.
+Context {A : Type}.
+Variables (v : list A) (W H : Z).
+Hypothesis HH : 1 <= H.
+Hypothesis HHW : H < W.
+
+Lemma overlap_block_some k :
+  0 <= k ->
+  (k <? nb_overlap (zlen v) W H) = true <-> 0 < zlen v /\ (k = 0 \/ W + (k - 1) * H < zlen v).
+Proof.
+  intros Hk. rewrite nb_overlap_lt by (try apply zlen_nonneg; lia).
+  rewrite andb_true_iff, orb_true_iff. lia.
+Qed.
+
+End OverlapClosed.
+
+Lemma ob_eq {A} (data : list A) mx W H i :
+  1 <= H -> H < W ->
+  ob data mx W H i = overlap_block (vis data mx) W H (Z.of_nat i).
+Proof.
+  intros HH HHW. unfold overlap_block.
+  pose proof (zlen_nonneg (vis data mx)) as Hn.
+  pose proof (overlap_block_some (vis data mx) W H HH (Z.of_nat i) ltac:(lia)) as Hiff.
+  destruct i as [|i'].
+  - cbn [ob]. change (Z.of_nat 0) with 0 in *. rewrite Z.mul_0_l, Z.add_0_l.
+    destruct (0 <? nb_overlap (zlen (vis data mx)) W H) eqn:E.
+    + destruct (zslice (vis data mx) 0 W) as [|x c] eqn:Es; [|reflexivity].
+      apply zslice_nil_inv in Es; lia.
+    + rewrite zslice_nil_ge; [reflexivity | lia |].
+      destruct (Z.eq_dec (zlen (vis data mx)) 0) as [Hz|Hz]; [lia|].
+      assert (false = true) by (apply Hiff; lia). discriminate.
+  - cbn [ob].
+    replace (Z.of_nat (S i') - 1) with (Z.of_nat i') in Hiff by lia.
+    destruct (W + Z.of_nat i' * H <? zlen (vis data mx)) eqn:Ec;
+      destruct (Z.of_nat (S i') <? nb_overlap (zlen (vis data mx)) W H) eqn:E; try reflexivity.
+    + assert (false = true) by (apply Hiff; lia). discriminate.
+    + destruct Hiff as [Hiff _]. specialize (Hiff eq_refl). lia.
+Qed.
+
+(* ------------------------------------------------------------------ *)
+(** * C10 *)
+
+(** C10, fixed-size reader: the k-th read is the k-th chunk of W samples of the
+    visible data, None afterwards, forever. *)
+Theorem C10_fixed : forall S (data : list S) W rec mx k, 1 <= W ->
+  snd (reads (mk_reader data W None rec mx) k)
+  = map (fun i => fixed_block (vis data mx) W (Z.of_nat i)) (seq 0 k).
+Proof.
+  intros S data W rec mx k HW.
+  apply (fixed_reads data mx W HW k 0 (mk_reader data W None rec mx)).
+  apply InvF_init; reflexivity.
+Qed.
+
+(** C10, overlapping reader, 1 <= H < W: block k starts at sample k*H, has W
+    samples except possibly the last, then None forever. *)
+Theorem C10_overlap : forall S (data : list S) W H rec mx k, 1 <= H -> H < W ->
+  snd (reads (mk_reader data W (Some H) rec mx) k)
+  = map (fun i => overlap_block (vis data mx) W H (Z.of_nat i)) (seq 0 k).
+Proof.
+  intros S data W H rec mx k HH HHW.
+  destruct (overlap_reads data mx W H HH HHW k 0 (mk_reader data W (Some H) rec mx)) as [_ Hb].
+  { apply InvO_init; reflexivity. }
+  rewrite Hb. apply map_ext. intros i. apply ob_eq; assumption.
+Qed.
+
+Theorem C10_overlap_full : forall S (v : list S) W H k,
+  1 <= H -> H < W -> 0 <= k -> k + 1 < nb_overlap (zlen v) W H ->
+  zlen (zslice v (k * H) (k * H + W)) = W.
+Proof.
+  intros S v W H k HH HHW Hk Hlt.
+  assert (Hb : (k + 1 <? nb_overlap (zlen v) W H) = true) by lia.
+  apply overlap_block_some in Hb; [|exact HH|lia].
+  assert (0 <= k * H) by nia.
+  rewrite zlen_zslice by lia.
+  replace (k + 1 - 1) with k in Hb by lia. lia.
+Qed.
+
+Theorem C10_overlap_last_nonempty : forall S (v : list S) W H k,
+  1 <= H -> H < W -> 0 <= k < nb_overlap (zlen v) W H ->
+  0 < zlen (zslice v (k * H) (k * H + W)).
+Proof.
+  intros S v W H k HH HHW [Hk Hlt].
+  assert (Hb : (k <? nb_overlap (zlen v) W H) = true) by lia.
+  apply overlap_block_some in Hb; [|exact HH|lia].
+  assert (0 <= k * H) by nia.
+  rewrite zlen_zslice by lia.
+  destruct Hb as [Hn [Hk0|Hk1]].
+  - subst k. lia.
+  - lia.
+Qed.
+
+(** C10 limit: the underlying source is never asked for / advanced beyond max_samples. *)
+Theorem C10_limit : forall S (data : list S) W H rec m k,
+  1 <= W -> (forall h, H = Some h -> 0 <= h) ->
+  pos (fst (reads (mk_reader data W H rec (Some m)) k)) <= Z.max 0 m.
+Proof.
+  intros S data W H rec m k _ _.
+  pose proof (reads_bound (mk_reader data W H rec (Some m)) k (mk_reader_bound _ _ _ _ _)) as [_ Hb].
+  pose proof (reads_static (mk_reader data W H rec (Some m)) k) as (Hs & _ & _ & Hl & _).
+  unfold rvis in Hb. rewrite Hs, Hl in Hb. unfold mk_reader in *. cbn [src limit] in Hb.
+  pose proof (zlen_vis_limit data m). lia.
+Qed.
+
+(** The non-None blocks of a fixed-size reader concatenate to the visible data. *)
+Definition some_blocks {S} (l : list (option (list S))) : list (list S) :=
+  flat_map (fun o => match o with Some b => [b] | None => [] end) l.
+
+Lemma fixed_blocks_concat {A} (v : list A) W k : forall a,
+  1 <= W ->
+  concat (some_blocks (map (fun i => fixed_block v W (Z.of_nat i)) (seq a k)))
+  = zslice v (Z.of_nat a * W) (Z.of_nat (a + k) * W).
+Proof.
+  induction k as [|k IH]; intros a HW.
+  - rewrite Nat.add_0_r. cbn [seq map some_blocks flat_map concat].
+    symmetry. apply zslice_nil_le. lia.
+  - cbn [seq map]. unfold some_blocks in *. cbn [flat_map]. rewrite concat_app, (IH (S a) HW).
+    assert (Hh : concat (match fixed_block v W (Z.of_nat a) with Some b => [b] | None => [] end)
+                 = zslice v (Z.of_nat a * W) (Z.of_nat a * W + W)).
+    { unfold fixed_block.
+      destruct (zslice v (Z.of_nat a * W) (Z.of_nat a * W + W)) as [|x c]; cbn [concat].
+      - reflexivity.
+      - apply app_nil_r. }
+    rewrite Hh.
+    replace (Z.of_nat (S a) * W) with (Z.of_nat a * W + W) by lia.
+    replace (Z.of_nat (S a + k) * W) with (Z.of_nat (a + S k) * W) by (f_equal; lia).
+    apply zslice_app_adj; nia.
+Qed.
+
+Corollary C10_fixed_concat : forall S (data : list S) W rec mx k,
+  1 <= W -> (zlen (vis data mx) <= Z.of_nat k * W) ->
+  concat (flat_map (fun o => match o with Some b => [b] | None => [] end)
+                   (snd (reads (mk_reader data W None rec mx) k)))
+  = vis data mx.
+Proof.
+  intros S data W rec mx k HW Hk. rewrite C10_fixed by exact HW.
+  fold (some_blocks (map (fun i => fixed_block (vis data mx) W (Z.of_nat i)) (seq 0 k))).
+  rewrite fixed_blocks_concat by exact HW.
+  change (Z.of_nat 0) with 0. rewrite Z.mul_0_l, Nat.add_0_l.
+  apply zslice_all. exact Hk.
+Qed.
+
+(* ------------------------------------------------------------------ *)
+(** * Both kinds of reader at once, from any fresh state *)
+
+Section Fresh.
+Context {A : Type}.
+
+(** A freshly opened, or freshly rewound, reader over [data]. *)
+Definition fresh (data : list A) (mx : option Z) (W : Z) (H : option Z) (r : rd A) : Prop :=
+  src r = data /\ limit r = mx /\ bsize r = W /\ hop r = H /\
+  pos r = 0 /\ nread r = 0 /\ gen r = GInit /\ (rdata r = None -> cache r = []).
+
+(** Closed form of block [i]. *)
+Definition cblock (data : list A) (mx : option Z) (W : Z) (H : option Z) (i : nat)
+  : option (list A) :=
+  match H with
+  | None => fixed_block (vis data mx) W (Z.of_nat i)
+  | Some h => ob data mx W h i
+  end.
+
+Lemma cblock_closed data mx W H i :
+  (forall h, H = Some h -> 1 <= h < W) ->
+  cblock data mx W H i =
+  match H with
+  | None => fixed_block (vis data mx) W (Z.of_nat i)
+  | Some h => overlap_block (vis data mx) W h (Z.of_nat i)
+  end.
+Proof.
+  intros HH. unfold cblock. destruct H as [h|]; [|reflexivity].
+  specialize (HH h eq_refl). apply ob_eq; lia.
+Qed.
+
+Lemma fresh_reads data mx W H r k :
+  1 <= W -> (forall h, H = Some h -> 1 <= h < W) ->
+  fresh data mx W H r ->
+  snd (reads r k) = map (cblock data mx W H) (seq 0 k) /\
+  lim_ok (fst (reads r k)) /\ rec_ok (fst (reads r k)) /\
+  pos (fst (reads r k)) = Z.min (zlen (vis data mx)) (consumed W H k).
+Proof.
+  intros HW HH (Hs & Hl & Hb & Hh & Hp & Hn & Hg & Hc).
+  destruct H as [h|].
+  - specialize (HH h eq_refl).
+    destruct (overlap_reads data mx W h ltac:(lia) ltac:(lia) k 0 r) as [Hinv Hbl].
+    { apply InvO_init; assumption. }
+    split; [exact Hbl|]. rewrite Nat.add_0_l in Hinv.
+    destruct Hinv as (_ & Hok & Hrec & Hdyn).
+    split; [exact Hok|]. split; [exact Hrec|].
+    unfold consumed. pose proof (zlen_nonneg (vis data mx)).
+    destruct k as [|k'].
+    + destruct Hdyn as [_ Hp0]. rewrite Hp0. change (Z.of_nat 0 =? 0) with true. cbv iota. lia.
+    + destruct Hdyn as [Hp1 _]. rewrite Hp1.
+      destruct (Z.of_nat (S k') =? 0) eqn:E; [lia|].
+      replace (Z.of_nat (S k') - 1) with (Z.of_nat k') by lia. reflexivity.
+  - destruct (fixed_reads data mx W HW k 0 r) as [Hinv Hbl].
+    { apply InvF_init; assumption. }
+    split; [exact Hbl|]. rewrite Nat.add_0_l in Hinv.
+    destruct Hinv as (_ & _ & _ & _ & Hok & Hrec & Hp1).
+    split; [exact Hok|]. split; [exact Hrec|]. exact Hp1.
+Qed.
+
+Lemma mk_reader_fresh data W H rec mx : fresh data mx W H (mk_reader data W H rec mx).
+Proof. unfold fresh, mk_reader. cbn [src limit bsize hop pos nread gen rdata cache]. repeat split. Qed.
+
+(** Blocks with index < k lie within the samples consumed by k reads. *)
+Lemma cblock_prefix data mx W H k i :
+  1 <= W -> (forall h, H = Some h -> 1 <= h < W) -> (i < k)%nat ->
+  cblock (firstn (Z.to_nat (Z.min (zlen (vis data mx)) (consumed W H k))) data) mx W H i
+  = cblock data mx W H i.
+Proof.
+  intros HW HH Hik. unfold cblock, consumed.
+  pose proof (zlen_nonneg (vis data mx)) as Hn.
+  destruct H as [h|].
+  - specialize (HH h eq_refl).
+    destruct (Z.of_nat k =? 0) eqn:Ek; [lia|].
+    assert (Hkh : 0 <= (Z.of_nat k - 1) * h) by nia.
+    unfold ob. rewrite vis_firstn.
+    set (v := vis data mx) in *.
+    set (p := Z.min (zlen v) (W + (Z.of_nat k - 1) * h)).
+    assert (Hzl : zlen (firstn (Z.to_nat p) v) = p) by (rewrite zlen_firstn; lia).
+    destruct i as [|i'].
+    + rewrite zslice_firstn by lia.
+      rewrite <- (zslice_clip v 0 (Z.min W p)), <- (zslice_clip v 0 W) by lia.
+      replace (Z.min (Z.min W p) (zlen v)) with (Z.min W (zlen v)) by lia. reflexivity.
+    + rewrite Hzl.
+      assert (Hi : 0 <= Z.of_nat i' * h) by nia.
+      assert (Hih : Z.of_nat i' * h + h <= (Z.of_nat k - 1) * h) by nia.
+      destruct (W + Z.of_nat i' * h <? p) eqn:E1;
+        destruct (W + Z.of_nat i' * h <? zlen v) eqn:E2; try reflexivity; try lia.
+      f_equal. rewrite zslice_firstn by lia.
+      rewrite <- (zslice_clip v _ (Z.min _ p)), <- (zslice_clip v _ (Z.of_nat (S i') * h + W)) by lia.
+      f_equal. lia.
+  - rewrite vis_firstn. set (v := vis data mx) in *.
+    unfold fixed_block.
+    assert (Hi : 0 <= Z.of_nat i * W) by nia.
+    assert (Hiw : Z.of_nat i * W + W <= Z.of_nat k * W) by nia.
+    rewrite zslice_firstn by lia.
+    rewrite <- (zslice_clip v _ (Z.min _ _)), <- (zslice_clip v _ (Z.of_nat i * W + W)) by lia.
+    replace (Z.min (Z.min (Z.of_nat i * W + W) (Z.min (zlen v) (Z.of_nat k * W))) (zlen v))
+      with (Z.min (Z.of_nat i * W + W) (zlen v)) by lia.
+    reflexivity.
+Qed.
+
+Lemma py_slice_limit (d : list A) m : zlen d <= Z.max 0 m -> py_slice d None (Some m) = d.
+Proof.
+  intros Hd. pose proof (zlen_nonneg d) as Hn. unfold py_slice, norm_idx.
+  destruct (m <? 0) eqn:E.
+  - assert (d = []) by (apply zlen_zero_nil; lia). subst d.
+    unfold zslice. rewrite skipn_nil, firstn_nil. reflexivity.
+  - rewrite Z.min_r by lia. apply zslice_all. lia.
+Qed.
+
+End Fresh.
+
+(* ------------------------------------------------------------------ *)
+(** * C19: the recorder *)
+
+(** Closed form of the number of source samples consumed by k reads (also after
+    reads past the end: the cursor then stays at the end of the visible data). *)
+Theorem C19_consumed : forall S (data : list S) W H rec mx k,
+  1 <= W -> (forall h, H = Some h -> 1 <= h < W) ->
+  pos (fst (reads (mk_reader data W H rec mx) k))
+  = Z.min (zlen (vis data mx)) (consumed W H k).
+Proof.
+  intros S data W H rec mx k HW HH.
+  apply (fresh_reads data mx W H (mk_reader data W H rec mx) k HW HH).
+  apply mk_reader_fresh.
+Qed.
+
+Theorem C19_data : forall S (data : list S) W H mx k r1 blocks,
+  1 <= W -> (forall h, H = Some h -> 1 <= h < W) ->
+  reads (mk_reader data W H true mx) k = (r1, blocks) ->
+  let d := firstn (Z.to_nat (pos r1)) data in
+  exists r2, rewind r1 = Ok r2
+    /\ rdata r2 = Some d
+    /\ get_data r2 = Ok d
+    /\ pos r1 <= zlen (vis data mx)
+    /\ pos r1 = Z.min (zlen (vis data mx)) (consumed W H k)
+    /\ r2 = mkRd d 0 true [] (Some d) mx 0 W H GInit.
+Proof.
+  intros S data W H mx k r1 blocks HW HH Hreads d.
+  pose proof (fresh_reads data mx W H _ k HW HH (mk_reader_fresh data W H true mx))
+    as (_ & Hok & Hrec & Hpos).
+  pose proof (reads_static (mk_reader data W H true mx) k) as (Hs & Hr & Hd & Hl & Hb & Hh).
+  rewrite Hreads in *. cbn [fst] in *.
+  unfold mk_reader in Hs, Hr, Hd, Hl, Hb, Hh. cbn [src recording rdata limit bsize hop] in *.
+  assert (Hcache : cache r1 = d).
+  { rewrite (Hrec Hr Hd), Hs. apply zslice_0. }
+  assert (Hle : pos r1 <= zlen (vis data mx)) by lia.
+  assert (Hrw : rewind r1 = Ok (mkRd d 0 true [] (Some d) mx 0 W H GInit)).
+  { unfold rewind. rewrite Hr, Hd, Hcache, Hl, Hb, Hh. reflexivity. }
+  eexists. split; [exact Hrw|]. cbn [rdata].
+  split; [reflexivity|]. split.
+  - unfold get_data. cbn [recording rdata limit negb].
+    destruct mx as [m|]; [|reflexivity].
+    rewrite py_slice_limit; [reflexivity|].
+    pose proof (zlen_vis_limit data m). unfold d. rewrite zlen_firstn. lia.
+  - split; [exact Hle|]. split; [exact Hpos | reflexivity].
+Qed.
+
+(** After the rewind, any number of reads replays the C10 block sequence of the
+    recorded data. *)
+Theorem C19_replay_closed : forall S (data : list S) W H mx k r1 blocks r2,
+  1 <= W -> (forall h, H = Some h -> 1 <= h < W) ->
+  reads (mk_reader data W H true mx) k = (r1, blocks) -> rewind r1 = Ok r2 ->
+  forall j,
+  snd (reads r2 j)
+  = snd (reads (mk_reader (firstn (Z.to_nat (pos r1)) data) W H true mx) j).
+Proof.
+  intros S data W H mx k r1 blocks r2 HW HH Hreads Hrw j.
+  destruct (C19_data S data W H mx k r1 blocks HW HH Hreads)
+    as (r2' & Hrw' & _ & _ & _ & _ & Hr2).
+  rewrite Hrw in Hrw'. injection Hrw' as <-.
+  set (d := firstn (Z.to_nat (pos r1)) data) in *.
+  assert (Hf : fresh d mx W H r2).
+  { rewrite Hr2. unfold fresh. cbn [src limit bsize hop pos nread gen rdata cache].
+    repeat split. }
+  destruct (fresh_reads d mx W H r2 j HW HH Hf) as [E1 _].
+  destruct (fresh_reads d mx W H _ j HW HH (mk_reader_fresh d W H true mx)) as [E2 _].
+  rewrite E1, E2. reflexivity.
+Qed.
+
+(** Replay: after the rewind, reading again returns the identical block
+    sequence for the k blocks read before. *)
+Theorem C19_replay : forall S (data : list S) W H mx k r1 blocks r2,
+  1 <= W -> (forall h, H = Some h -> 1 <= h < W) ->
+  reads (mk_reader data W H true mx) k = (r1, blocks) -> rewind r1 = Ok r2 ->
+  snd (reads r2 k) = blocks.
+Proof.
+  intros S data W H mx k r1 blocks r2 HW HH Hreads Hrw.
+  rewrite (C19_replay_closed S data W H mx k r1 blocks r2 HW HH Hreads Hrw k).
+  destruct (fresh_reads (firstn (Z.to_nat (pos r1)) data) mx W H _ k HW HH
+              (mk_reader_fresh (firstn (Z.to_nat (pos r1)) data) W H true mx)) as [E1 _].
+  destruct (fresh_reads data mx W H _ k HW HH (mk_reader_fresh data W H true mx))
+    as (E2 & _ & _ & Hpos).
+  rewrite Hreads in E2, Hpos. cbn [fst snd] in E2, Hpos.
+  rewrite E1, E2, Hpos. apply map_ext_in. intros i Hi.
+  apply in_seq in Hi. apply cblock_prefix; [exact HW | exact HH | lia].
+Qed.
+
+(** Further rewinds keep the same data, whatever was read in between. *)
+Theorem C19_rewind_again : forall S (r2 : rd S) d j r3,
+  recording r2 = true -> rdata r2 = Some d -> src r2 = d ->
+  fst (reads r2 j) = r3 ->
+  exists r4, rewind r3 = Ok r4 /\ rdata r4 = Some d /\ src r4 = d /\ pos r4 = 0
+             /\ gen r4 = GInit /\ nread r4 = 0.
+Proof.
+  intros S r2 d j r3 Hr Hd Hs Hreads.
+  pose proof (reads_static r2 j) as (_ & Hr' & Hd' & _).
+  rewrite Hreads in Hr', Hd'. rewrite Hr in Hr'. rewrite Hd in Hd'.
+  unfold rewind. rewrite Hr', Hd'. cbn [negb].
+  eexists. split; [reflexivity|]. cbn [rdata src pos gen nread]. repeat split.
+Qed.
+
+(** Guards. *)
+Theorem C19_guard_unrewound : forall S (data : list S) W H mx k,
+  get_data (fst (reads (mk_reader data W H true mx) k)) = Err RuntimeError.
+Proof.
+  intros S data W H mx k.
+  pose proof (reads_static (mk_reader data W H true mx) k) as (_ & Hr & Hd & _).
+  unfold get_data. rewrite Hr, Hd. reflexivity.
+Qed.
+
+Theorem C19_guard_nonrecording : forall S (data : list S) W H mx k,
+  get_data (fst (reads (mk_reader data W H false mx) k)) = Err AttributeError
+  /\ rewind (fst (reads (mk_reader data W H false mx) k)) = Err AttributeError.
+Proof.
+  intros S data W H mx k.
+  pose proof (reads_static (mk_reader data W H false mx) k) as (_ & Hr & _).
+  unfold get_data, rewind. rewrite Hr. split; reflexivity.
+Qed.
+
+(* ------------------------------------------------------------------ *)
+(** * The non-None blocks of the fixed-size reader are [chunks W] of the visible data *)
+
+Lemma chunks_fuel_nil {A} f n : chunks_fuel f n (@nil A) = [].
+Proof. destruct f; reflexivity. Qed.
+
+Lemma fixed_block_nat {A} (v : list A) W (a : nat) :
+  1 <= W ->
+  fixed_block v W (Z.of_nat a)
+  = match firstn (Z.to_nat W) (skipn (a * Z.to_nat W) v) with [] => None | b => Some b end.
+Proof.
+  intros HW. unfold fixed_block, zslice.
+  replace (Z.to_nat (Z.of_nat a * W + W - Z.of_nat a * W)) with (Z.to_nat W) by lia.
+  rewrite Z2Nat.inj_mul, Nat2Z.id by lia. reflexivity.
+Qed.
+
+Lemma fixed_blocks_chunks {A} (v : list A) W k : forall a f,
+  1 <= W ->
+  (length (skipn (a * Z.to_nat W) v) <= f)%nat ->
+  (length (skipn (a * Z.to_nat W) v) <= k * Z.to_nat W)%nat ->
+  some_blocks (map (fun i => fixed_block v W (Z.of_nat i)) (seq a k))
+  = chunks_fuel f (Z.to_nat W) (skipn (a * Z.to_nat W) v).
+Proof.
+  induction k as [|k IH]; intros a f HW Hf Hk.
+  - cbn [seq map some_blocks flat_map].
+    destruct (skipn (a * Z.to_nat W) v) as [|x t]; [|cbn [length] in Hk; lia].
+    symmetry. apply chunks_fuel_nil.
+  - cbn [seq map]. unfold some_blocks in *. cbn [flat_map].
+    rewrite fixed_block_nat by exact HW.
+    assert (Hsk : skipn (S a * Z.to_nat W) v = skipn (Z.to_nat W) (skipn (a * Z.to_nat W) v)).
+    { rewrite skipn_skipn'. f_equal; lia. }
+    destruct (skipn (a * Z.to_nat W) v) as [|x t] eqn:El.
+    + rewrite firstn_nil. cbn [app]. rewrite chunks_fuel_nil.
+      rewrite (IH (S a) f HW); rewrite Hsk, skipn_nil; [apply chunks_fuel_nil | |]; cbn [length]; lia.
+    + destruct f as [|f']; [cbn [length] in Hf; lia|].
+      cbn [chunks_fuel].
+      destruct (Z.to_nat W) as [|n'] eqn:En; [lia|]. rewrite <- En in *.
+      assert (Hne : firstn (Z.to_nat W) (x :: t) <> []).
+      { rewrite En. cbn [firstn]. discriminate. }
+      destruct (firstn (Z.to_nat W) (x :: t)) as [|y u] eqn:Ef; [congruence|].
+      cbn [app]. f_equal.
+      rewrite (IH (S a) f' HW); rewrite Hsk; [reflexivity | |];
+        rewrite skipn_length; cbn [length] in *; lia.
+Qed.
+
+(** The non-None blocks are exactly [chunks W (vis data mx)]. *)
+Corollary C10_fixed_chunks : forall S (data : list S) W rec mx k,
+  1 <= W -> (zlen (vis data mx) <= Z.of_nat k * W) ->
+  flat_map (fun o => match o with Some b => [b] | None => [] end)
+           (snd (reads (mk_reader data W None rec mx) k))
+  = chunks (Z.to_nat W) (vis data mx).
+Proof.
+  intros S data W rec mx k HW Hk. rewrite C10_fixed by exact HW.
+  fold (some_blocks (map (fun i => fixed_block (vis data mx) W (Z.of_nat i)) (seq 0 k))).
+  unfold chunks.
+  rewrite (fixed_blocks_chunks (vis data mx) W k 0 (length (vis data mx)) HW);
+    rewrite Nat.mul_0_l, skipn_O; [reflexivity | lia |].
+  unfold zlen in Hk. nia.
+Qed.
+
+(* ------------------------------------------------------------------ *)
+(** * Non-vacuity: concrete instances *)
+
+Definition ex_data : list Z := [1;2;3;4;5;6;7;8;9;10].
+
+(** Overlapping reader, W = 4, H = 2, max_read = 7 samples: three blocks, the
+    last one short, then None forever. *)
+Example ex_overlap_blocks :
+  snd (reads (mk_reader ex_data 4 (Some 2) false (Some 7)) 5)
+  = [Some [1;2;3;4]; Some [3;4;5;6]; Some [5;6;7]; None; None]
+  /\ map (fun i => overlap_block (vis ex_data (Some 7)) 4 2 (Z.of_nat i)) (seq 0 5)
+     = [Some [1;2;3;4]; Some [3;4;5;6]; Some [5;6;7]; None; None]
+  /\ nb_overlap (zlen (vis ex_data (Some 7))) 4 2 = 3.
+Proof. vm_compute. repeat split. Qed.
+
+(** Fixed-size reader, W = 4, max_read = 7 samples. *)
+Example ex_fixed_blocks :
+  snd (reads (mk_reader ex_data 4 None false (Some 7)) 4)
+  = [Some [1;2;3;4]; Some [5;6;7]; None; None]
+  /\ map (fun i => fixed_block (vis ex_data (Some 7)) 4 (Z.of_nat i)) (seq 0 4)
+     = [Some [1;2;3;4]; Some [5;6;7]; None; None]
+  /\ chunks (Z.to_nat 4) (vis ex_data (Some 7)) = [[1;2;3;4]; [5;6;7]]
+  /\ zlen (vis ex_data (Some 7)) <= Z.of_nat 4 * 4.
+Proof. vm_compute. repeat split. discriminate. Qed.
+
+(** The hypotheses of C10_overlap_full / C10_overlap_last_nonempty are satisfiable. *)
+Example ex_overlap_full_hyps :
+  1 <= 2 /\ 2 < 4 /\ 0 <= 1 /\ 1 + 1 < nb_overlap (zlen (vis ex_data (Some 7))) 4 2
+  /\ zlen (zslice (vis ex_data (Some 7)) (1 * 2) (1 * 2 + 4)) = 4
+  /\ zlen (zslice (vis ex_data (Some 7)) (2 * 2) (2 * 2 + 4)) = 3.
+Proof. vm_compute. repeat split; discriminate. Qed.
+
+(** The cursor stops at the limit. *)
+Example ex_limit :
+  pos (fst (reads (mk_reader ex_data 4 (Some 2) false (Some 7)) 5)) = 7
+  /\ pos (fst (reads (mk_reader ex_data 4 None false (Some 7)) 9)) = 7.
+Proof. vm_compute. split; reflexivity. Qed.
+
+(** Record two overlapping blocks (6 source samples consumed), rewind, replay. *)
+Definition ex_r1 : rd Z := fst (reads (mk_reader ex_data 4 (Some 2) true (Some 7)) 2).
+Definition ex_r2 : rd Z :=
+  mkRd [1;2;3;4;5;6] 0 true [] (Some [1;2;3;4;5;6]) (Some 7) 0 4 (Some 2) GInit.
+
+Example ex_record_rewind_replay :
+  snd (reads (mk_reader ex_data 4 (Some 2) true (Some 7)) 2) = [Some [1;2;3;4]; Some [3;4;5;6]]
+  /\ pos ex_r1 = 6 /\ consumed 4 (Some 2) 2 = 6
+  /\ get_data ex_r1 = Err RuntimeError
+  /\ rewind ex_r1 = Ok ex_r2
+  /\ get_data ex_r2 = Ok [1;2;3;4;5;6]
+  /\ snd (reads ex_r2 2) = [Some [1;2;3;4]; Some [3;4;5;6]]
+  /\ snd (reads ex_r2 4) = [Some [1;2;3;4]; Some [3;4;5;6]; None; None]
+  /\ rewind (fst (reads ex_r2 3)) = Ok ex_r2.
+Proof. vm_compute. repeat split. Qed.
+
+(** Reads past the end: the whole source is recorded exactly once. *)
+Definition ex_r1' : rd Z := fst (reads (mk_reader ex_data 4 (Some 2) true None) 7).
+
+Example ex_record_past_end :
+  snd (reads (mk_reader ex_data 4 (Some 2) true None) 7)
+  = [Some [1;2;3;4]; Some [3;4;5;6]; Some [5;6;7;8]; Some [7;8;9;10]; None; None; None]
+  /\ pos ex_r1' = 10 /\ Z.min (zlen (vis ex_data None)) (consumed 4 (Some 2) 7) = 10
+  /\ rewind ex_r1' = Ok (mkRd ex_data 0 true [] (Some ex_data) None 0 4 (Some 2) GInit)
+  /\ get_data (mkRd ex_data 0 true [] (Some ex_data) None 0 4 (Some 2) GInit) = Ok ex_data.
+Proof. vm_compute. repeat split. Qed.
+
+(** Guards on a non-recording reader. *)
+Example ex_guards :
+  get_data (fst (reads (mk_reader ex_data 4 None false None) 1)) = Err AttributeError
+  /\ rewind (fst (reads (mk_reader ex_data 4 None false None) 1)) = Err AttributeError.
+Proof. vm_compute. split; reflexivity. Qed.
+
+(* ------------------------------------------------------------------ *)
+
+Print Assumptions C10_fixed.
+Print Assumptions C10_fixed_concat.
+Print Assumptions C10_fixed_chunks.
+Print Assumptions C10_overlap.
+Print Assumptions C10_overlap_full.
+Print Assumptions C10_overlap_last_nonempty.
+Print Assumptions C10_limit.
+Print Assumptions C19_consumed.
+Print Assumptions C19_data.
+Print Assumptions C19_replay.
+Print Assumptions C19_replay_closed.
+Print Assumptions C19_rewind_again.
+Print Assumptions C19_guard_unrewound.
+Print Assumptions C19_guard_nonrecording.
